@@ -55,9 +55,11 @@ class Gen:
     def __init__(self, rng, profile="py", tag_calls=False, max_ops=12, nphases=None, allow_end=True,
                  weird_names=True, persistent_arrays=True, multi_result=True, persist_tag="",
                  readonly_state=(), advance_time=True, phase_plan=None, components=None, funcs=None,
-                 ifexpr=True, call_bias=0.0):
+                 ifexpr=True, call_bias=0.0, counters=None, extra_locals=()):
         self.ifexpr = ifexpr
         self.call_bias = call_bias
+        self.counters = list(counters or COUNTERS)
+        self.extra_locals = list(extra_locals)
         self.persist_tag = persist_tag
         self.readonly_state = list(readonly_state)
         self.advance_time = advance_time
@@ -216,6 +218,12 @@ class Gen:
             return self.bcall("<builtin>elementwise_abs", [["var", rng.choice(same)]])
         if r < 0.92:
             return self.ucall_vec(sc, d, rng.choice(same))
+        if length == 4 and r < 0.97:
+            # 2x2 matrices stored column-major in 4-element arrays
+            a, b = rng.choice(same), rng.choice(same)
+            if rng.random() < 0.5:
+                return self.bcall("<builtin>matmul", [["var", a], ["var", b], ["num", 2], ["num", 2]])
+            return self.bcall("<builtin>transpose", [["var", a], ["num", 2]])
         return ["neg", ["var", rng.choice(same)]]
 
     def arr_atom(self, sc, same):
@@ -286,6 +294,8 @@ class Gen:
     def new_local(self, sc, pool):
         rng = self.rng
         names = list(pool)
+        if pool is LOCAL_NAMES and self.extra_locals and rng.random() < 0.3:
+            names = list(self.extra_locals)
         if self.weird_names and pool is LOCAL_NAMES and rng.random() < 0.08:
             names = WEIRD_LOCALS
         # names the builder may already have issued (or may issue) are off limits once it
@@ -366,7 +376,7 @@ class Gen:
         if sc.ints and rng.random() < 0.0:
             pass
         alloc = ["call", [lhs], "<builtin>array", [nexpr], {}, self.s(nexpr, ["var", lhs])]
-        c = rng.choice(COUNTERS)
+        c = rng.choice(self.counters)
         sc2 = sc.copy()
         sc2.counters[c] = (0, n)
         val = self.num_expr(sc2, rng.choice([0, 1, 2]))
@@ -398,7 +408,7 @@ class Gen:
         a = rng.choice(sorted(sc.arrs))
         n = sc.arrs[a]
         kind = rng.random()
-        c = rng.choice(COUNTERS)
+        c = rng.choice(self.counters)
         if kind < 0.15:
             lo, hi = rng.choice([(0, 0), (1, 1), (2, 1)])          # zero-trip
         elif kind < 0.3:
@@ -423,7 +433,7 @@ class Gen:
         if sub[0] == "var" and sub[1] == c and not (0 <= lo and hi <= n):
             sub = ["num", 0]
         if rng.random() < 0.25:
-            c2 = rng.choice([x for x in COUNTERS if x != c])
+            c2 = rng.choice([x for x in self.counters if x != c])
             lo2 = rng.randint(0, 1)
             hi2 = rng.randint(lo2, lo2 + 2)
             inner_lo = ["num", lo2] if rng.random() < 0.7 or lo > lo2 else ["var", c]
@@ -434,6 +444,29 @@ class Gen:
         else:
             val = self.num_expr(sc2, rng.choice([0, 1, 2]))
         return pre + [["assign", a, sub, val, loops, self.s(val, sub, ["var", a])]]
+
+    def op_scalar_loop(self, sc, persist):
+        """Looped assignment to a SCALAR: accumulation over a counter, 'w <- w + 0.25*i [i=0..n]'
+        (real operand before the integer counter and the mirrored spelling)."""
+        rng = self.rng
+        c = rng.choice(self.counters)
+        lo = rng.randint(0, 1)
+        hi = rng.choice([lo, lo + 1, lo + 3, 4])
+        cands = [n for n in sc.nums if n not in ("<t>", "<dt>") and n not in sc.ints
+                 and not n.startswith("$fresh") and not n.startswith("<cond>")
+                 and n not in self.readonly_state]
+        if persist and rng.random() < 0.4:
+            cands = [n for n in persist["nums"] if n in sc.nums] or cands
+        if not cands:
+            return None
+        w = rng.choice(cands)
+        k = ["num", rng.choice([0.25, 0.5, 1.5, -0.5])]
+        term = rng.choice([["*", k, ["var", c]], ["*", ["var", c], k], ["/", ["var", c], ["num", 4]]])
+        if rng.random() < 0.7:
+            rhs = ["+", ["var", w], term]
+        else:
+            rhs = term                      # last trip wins; a zero-trip loop leaves w alone
+        return [["assign", w, None, rhs, [[c, ["num", lo], ["num", hi]]], self.s(rhs)]]
 
     def op_elem_write(self, sc):
         rng = self.rng
@@ -541,8 +574,10 @@ class Gen:
                 new = self.op_assign_arr(sc, persist)
             elif r < 0.57:
                 new = self.op_elem_loop(sc)
-            elif r < 0.61:
+            elif r < 0.59:
                 new = self.op_elem_write(sc)
+            elif r < 0.61:
+                new = self.op_scalar_loop(sc, persist)
             elif r < 0.69:
                 new = [self.op_call_stmt(sc, persist)]
             elif r < 0.79:
